@@ -772,7 +772,7 @@ func (p *Proc) callModular(ec *ectx, ct *Contract, fi *FuncInfo, fn *types.Func,
 			}
 		}
 	}
-	for _, cl := range ct.ByKind("ensures") {
+	for _, cl := range append(append([]*Clause{}, ct.ByKind("ensures")...), ct.ByKind("defines")...) {
 		cec := p.contractEc(st, ct, fi, fn, extra)
 		cec.where = cl.Where
 		cec.results = results
@@ -780,6 +780,9 @@ func (p *Proc) callModular(ec *ectx, ct *Contract, fi *FuncInfo, fn *types.Func,
 		cec.atCallSite = true
 		g := p.eval(cec, cl.Expr)
 		st.assume(g.T)
+		if cl.Kind == "defines" {
+			p.ctx.notes["definitional clause of "+ct.Name+" (names its result by an uninterpreted function; assumed, not proved): "+cl.Text] = true
+		}
 	}
 	// consistency probe: assuming the callee's postconditions must not make a reachable path
 	// unreachable (a contradictory contract would make everything after the call vacuously true)
@@ -965,12 +968,52 @@ func (p *Proc) execReturn(st *State, x *ast.ReturnStmt) {
 			st.vars[ro] = p.convert(ec, vals[i], ro.Type())
 		}
 	}
+	p.returnAsserts(st, x)
 	p.runDefers(st, fr)
 	if fr.inline {
 		fr.rets = append(fr.rets, st)
 		return
 	}
 	p.atExit(st, x)
+}
+
+// returnAsserts checks `assert return#k: expr` clauses: an assertion over the locals in scope at
+// the k-th return statement of the procedure body (source order, function literals excluded).
+func (p *Proc) returnAsserts(st *State, x *ast.ReturnStmt) {
+	fr := p.cur()
+	if fr.contract == nil || fr.inline {
+		return
+	}
+	site := ""
+	for _, cl := range fr.contract.Clauses {
+		if cl.Kind != "assert" || !strings.HasPrefix(cl.Param, "return#") {
+			continue
+		}
+		if site == "" {
+			n, found := 0, 0
+			ast.Inspect(fr.fi.Body(), func(nd ast.Node) bool {
+				if _, ok := nd.(*ast.FuncLit); ok {
+					return false
+				}
+				if r, ok := nd.(*ast.ReturnStmt); ok {
+					n++
+					if r == x {
+						found = n
+					}
+				}
+				return true
+			})
+			site = fmt.Sprintf("return#%d", found)
+		}
+		if cl.Param != site {
+			continue
+		}
+		cec := p.specEc(st, x.Pos())
+		cec.where = cl.Where
+		g := p.eval(cec, cl.Expr)
+		p.assertFired[cl] = true
+		p.oblige(st, "callsite.assert", fmt.Sprintf("%s%s.assert", fr.prefix, site), cl.Tags, g.T, cl.Where)
+	}
 }
 
 func (p *Proc) runDefers(st *State, fr *frame) {
